@@ -13,7 +13,7 @@ NOTE = ("Trusted base: z3 5.1; the engine's fork/replay logic; the numpy/pandas 
 CLAIMED = {
     "C16": ("2 (C16)", "PARTIAL, stated: for nine closed-form panel transformers and the column ensemble around stub members (symbolic cell values on the real numpy/pandas), every permutation of the instances permutes the output rows (and, for the column ensemble, the predicted labels, ties included) identically, a single instance gives the corresponding batch row also in panels that mix integer-typed and real-valued cells, and a 3-D array input gives the same result as the nested frame. Fitted classifiers / regressors (C trees, numba dictionaries) are not applicable to this technique and not claimed."),
     "C17": ("2 (C17)", "PARTIAL, stated: the time-series-forest kernels run as functions on a duck-typed self with stub trees whose probability rows are symbolic distributions - averaged output is a distribution and equals the mean of the trees for either number of jobs, predict attains the maximal probability in the training label set (ints, strings, non-contiguous), features are (mean, std, slope) per interval in order, sampled intervals lie inside the series for every generator outcome (symbolic), forest-regressor prediction = mean of trees, column-ensemble probabilities = mean of the members on their own columns, BaseClassifier.predict/score. Anything needing a really fitted classifier is not applicable and not claimed."),
-    "C12": ("2 (C12)", "PARTIAL, stated: for 13 series transformers, 8 forecasters / composites (symbolic world) and 10 panel transformers (token arrays on the real numpy/pandas; nested frame and 3-D array containers; PCATransformer over scikit-learn's documented copy contract), with symbolic values so that the outlier / missing-value / window branches are all explored: the caller's data after fit and after apply-type calls are term-equal to the data before, a repeated (and interleaved inverse) apply returns term-equal results, and a snapshot of the estimator's attributes is unchanged by apply-type calls. The thread-schedule / n_jobs / pickle / random_state parts of the property are not applicable to this technique and are not claimed."),
+    "C12": ("2 (C12)", "PARTIAL, stated: for 13 series transformers, 10 forecasters / composites (symbolic world) and 12 panel transformers (token arrays on the real numpy/pandas; nested frame and 3-D array containers; PCATransformer over scikit-learn's documented copy contract), with symbolic values so that the outlier / missing-value / window branches are all explored: the caller's data after fit and after apply-type calls are term-equal to the data before, a repeated (and interleaved inverse) apply returns term-equal results, and a snapshot of the estimator's attributes is unchanged by apply-type calls. The thread-schedule / n_jobs / pickle / random_state parts of the property are not applicable to this technique and are not claimed."),
     "C14": ("2 (C14)", "Reduced to the listed closed-form transformers: PaddingTransformer, TruncationTransformer, PAA, Tabularizer, ColumnConcatenator, IntervalSegmenter (int and array intervals), SlidingWindowSegmenter, RandomIntervalFeatureExtractor (mean/std/slope of the fitted intervals), SeriesToSeriesRowTransformer, _slope, CosineTransformer and six Imputer rules, run on the real numpy/pandas with symbolic cell values (token arrays), plus TSInterpolator over the documented contract of scipy's interp1d and AutoCorrelationTransformer over a recording contract stub of statsmodels' acf (counterexamples are replayed on the real scipy / statsmodels against the textbook formulas); every output cell proved equal to the documented closed form (exactly, or within 1e-9 relative where the code itself computes with inexact float constants), rows in input order, requested lengths."),
     "C04": ("2 (C04)", "Reduced scope, stated: every public estimator class of the modules that load in the sandbox (listed in the evidence, with the modules that do not) is constructed with symbolic int/float/bool arguments and opaque tokens for everything else; stored attribute = get_params = passed value (z3 term equality / identity), clone and set_params round trips, unknown names rejected, nested component__param read/write and component replacement for the composites (symbolic values, concrete names), is_fitted False when fresh or cloned, apply-type methods raise NotFittedError before fit, fit returns self and leaves parameters unchanged."),
     "C15": ("2 (C15)", "Every conversion path of length <= 3 between nested (Series / array cells), 3-D array, multi-index, long and 2-D representations, plus check_X coercions and the nestedness predicates, executed on the real pandas with opaque symbolic tokens as cell values; each output cell is proved (term equality) to be the input token at the same (instance, column, time) position; sizes enumerated within the bounds. Weak use of the solver, stated as such."),
@@ -21,10 +21,10 @@ CLAIMED = {
     "C20": ("2 (C20)", "Thirteen classes of malformed input pushed through the public entry points (fit / update / predict of forecasters and composites, splitters, evaluate, grid search, temporal_train_test_split, the horizon constructor) with the offending quantity symbolic (index labels, exogenous index offsets, horizon values, window / step / period, window vs. series length) or drawn from a finite list of type faults; on every path: rejected iff invalid, exception type in {ValueError, TypeError, NotImplementedError}, is_fitted False afterwards (and, for a refused second fit of a fitted forecaster, cutoff and remembered series still those of the accepted fit), valid twin accepted."),
     "C03": ("2 (C03)", "Twenty forecaster kinds (naive variants, polynomial trend with and without intercept, statsmodels adapter, the Theta forecaster over the same results stub, the four reducers, ensemble, pipelines with a stub transformer and with the real Deseasonalizer, stacking, multiplexer, grid search) run symbolically with relative or absolute horizons given at fit or at predict, optionally after an update (re-estimating or not, fresh or re-sent data), on fresh and on previously fitted objects, for symbolic values and a symbolic integer index origin: one value per step, index = cutoff + fh, increasing, cutoff = last label after fit/update, finite values, and for the non-stub forecasters a second run at origin + delta (delta symbolic) proves shift invariance."),
     "C13": ("2 (C13)", "Deseasonalizer / ConditionalDeseasonalizer (symbolic seasonal vector, free integer offsets of the transformed and of an update stretch), Detrender (stub forecaster and exact least-squares default), Box-Cox / log (uninterpreted inverse pairs), TabularToSeriesAdaptor, OptionalPassthrough executed symbolically: inverse(transform(z)) = z, output index = input index, seasonal phase = position modulo sp relative to the training series before and after update, fit_transform = fit+transform; Hampel filter and Imputer rules proved invariant under a symbolic shift of the index."),
-    "C10": ("2 (C10)", "Enumerated call programs over {update(T/F), predict, update_predict_single, update_predict} after fit, each executed symbolically (batch sizes, overlap, horizon, fh-at-fit flag forked; values and index origin symbolic) on NaiveForecaster variants, custom-update members (one reading its stored horizon), an ensemble, a pipeline with a stateful transformer and a stacker; remembered data = union with later values winning, cutoffs, forecasts equal to a fresh fit on the union (or to the old fitted state from the new cutoff), update_predict = the single-step sequence of a twin, cutoff restored."),
+    "C10": ("2 (C10)", "Enumerated call programs over {update(T/F), predict, update_predict_single, update_predict} after fit, each executed symbolically (batch sizes, overlap, horizon, fh-at-fit flag forked; values and index origin symbolic) on NaiveForecaster variants (also with an integer-typed training series), custom-update members (one reading its stored horizon, one failing part-way through update_predict), an ensemble, a pipeline with a stateful transformer, a stacker and the polynomial trend forecaster (differential against fresh fits); remembered data = union with later values winning, cutoffs, forecasts equal to a fresh fit on the union (or to the old fitted state from the new cutoff), update_predict = the single-step sequence of a twin, cutoff restored."),
     "C08": ("2 (C08)", "ForecastingGridSearchCV / ForecastingRandomizedSearchCV fit executed symbolically (real evaluate, real splitter, real ParameterGrid/clone/set_params) over plain, pipeline (nested f__p) and multiplexer base forecasters with symbolic fold scores; cv_results_ rows, optimality of best_index_ in the declared direction, best_params_/best_score_, refit on the whole series, predict/update/cutoff delegation and NotFittedError without refit are proved on every ordering of the scores."),
     "C09": ("2 (C09)", "EnsembleForecaster (mean/median/min/max), OnlineEnsembleForecaster (stub weighting algorithm), TransformedTargetForecaster (with skip-inverse tags, transform/inverse_transform), MultiplexForecaster (incl. prediction-interval level and re-selection), StackingForecaster and two nestings executed symbolically around recording member / transformer / meta-regressor stubs with uninterpreted outputs; forecasts proved equal to the composition of the parts, and the data every inner estimator receives at fit and after an update proved to be in the right representation."),
-    "C07": ("2 (C07)", "The real evaluate() executed symbolically with the real expanding / sliding / single-window splitters (symbolic window, step, horizon, index origin, series values), a recording forecaster and an asymmetric uninterpreted scoring function; per fold the row's cutoff, training-window length and score = S(y_true, y_pred), the data handed to fit/update/predict, absence of leakage, X slices and returned data are proved for every path."),
+    "C07": ("2 (C07)", "The real evaluate() executed symbolically with the real expanding / sliding / single-window splitters (symbolic window, step, horizon, index origin, series values), a recording forecaster and an asymmetric uninterpreted scoring function (one cell runs the library's own default metric for scoring=None); per fold the row's cutoff, training-window length and score = S(y_true, y_pred), the data handed to fit/update/predict, absence of leakage, X slices and returned data are proved for every path."),
     "C05": ("2 (C05)", "make_reduction with the four strategies and both scitypes executed symbolically around a recording regressor stub whose predictions are uninterpreted functions; every training row / target / prediction input is proved to be exactly the documented lag window (symbolic series values and index origin; window, horizon and series length forked within the bounds); recursive and dirrec forecasts proved equal to an independently built reference recursion."),
     "C06": ("2 (C06)", "Each of the 18 metric functions executed symbolically on free real truth/forecast/benchmark/training values, horizon weights and multioutput weights (shapes forked within the bounds); the returned term is proved equal to the textbook formula written independently (z3: UF-abstraction with semantic canonicalisation, then nonlinear real arithmetic), plus the laws (non-negativity, zero at a perfect forecast, sMAPE symmetry and bound, scale invariance, geometric-mean floor) and class-wrapper = function."),
     "C02": ("2 (C02)", "All feasible paths of the real ForecastingHorizon for unconstrained symbolic integer steps (any sign, order, duplicates), cutoffs and start values, built from int/list/array/Index/RangeIndex, relative and absolute; sortedness, exact conversions, round trips, partition, predicates, indexer and rejection of malformed values each discharged by z3."),
